@@ -307,7 +307,7 @@ def gen_scenario(rng: random.Random):
     nprod = rng.choice([1, 1, 2, 3])
     ncons = rng.choice([1, 2, 2, 3])
     sc = {"maxsize": rng.choice([0, 0, 1, 2]),
-          "producers": [{"items": rng.randint(0, 5), "gap": rng.randint(0, 3), "falsy": rng.random() < 0.3, "nowait": rng.random() < 0.3} for _ in range(nprod)],
+          "producers": [{"items": rng.randint(0, 5) if rng.random() > 0.1 else rng.randint(9, 14), "gap": rng.randint(0, 3), "falsy": rng.random() < 0.3, "nowait": rng.random() < 0.3} for _ in range(nprod)],
           "consumers": [], "steps": []}
     for _ in range(ncons):
         bodies = []
@@ -323,7 +323,7 @@ def gen_scenario(rng: random.Random):
             elif x < 0.45:
                 b = {"y": rng.choice([0, 1, 2]), "nested": True}
             bodies.append(b)
-        sc["consumers"].append({"rounds": rng.randint(1, 4), "bodies": bodies})
+        sc["consumers"].append({"rounds": rng.randint(1, 4) if rng.random() > 0.1 else rng.randint(8, 14), "bodies": bodies})
     for _ in range(rng.randint(2, 12)):
         x = rng.random()
         if x < 0.3:
